@@ -45,14 +45,15 @@ def _bounds(stream):
 TOTALS = [len(_stream(m)) for m in MSG_SETS]
 
 
-def _conc(v, n):
-    for i in range(n):
-        if v == i:
-            return i
-    return 0
+from ..rt import conc as _conc, notrace
 
 
 def h_frame(mset, t, rst, c0, c1, c2, c3, c4, c5):
+    with notrace():     # segment sizes are chosen through Sched.pick(); the bytes themselves are concrete
+        return _h_frame(mset, t, rst, c0, c1, c2, c3, c4, c5)
+
+
+def _h_frame(mset, t, rst, c0, c1, c2, c3, c4, c5):
     vos.reset()
     mset = _conc(mset, len(MSG_SETS))
     msgs = MSG_SETS[mset]
@@ -91,6 +92,11 @@ def h_frame(mset, t, rst, c0, c1, c2, c3, c4, c5):
 # ---------------------------------------------------------------------------------------------
 # send side: framing of what send_msg writes, and its error mapping
 def h_send(mset, gone):
+    with notrace():
+        return _h_send(mset, gone)
+
+
+def _h_send(mset, gone):
     vos.reset()
     mset = _conc(mset, len(MSG_SETS))
     gone = _conc(gone, 2)
